@@ -2,6 +2,7 @@ package shimagent
 
 //vsym:pkg github.com/theparanoids/ysshra/agent/shimagent
 //vsym:include shim/world.go
+//vsym:include shim/peek.go || shim/peek_bb.go
 //vsym:entry H11_traces
 //vsym:replay adapter h11_replay_test.go race
 //vsym:expect-cover C11.traced
@@ -32,17 +33,14 @@ func H11_traces() {
 	lockedFirst := vChoose(2, "locked") == 1
 	vFact("locked-first", lockedFirst)
 	if lockedFirst {
-		s.locked = true
+		mwForceLocked(s)
 		up.locked = true
 		up.pass = []byte("p")
 	}
 
-	vName(&s.mu, "shim.mu")
-	vWatch(&s.certs, "certs")
-	vWatchMap(s.certs, "certs")
-	vWatch(&s.upstreamSSHCACertCache, "cache")
-	vWatchMap(s.upstreamSSHCACertCache, "cache")
-	vWatch(&s.locked, "locked")
+	// every field of the server is a watched location named after the field;
+	// its mutex is "shim.<field>" (no knowledge of the representation needed)
+	vWatchAll(s, "shim")
 
 	ops := []string{"List", "Signers", "Sign", "Add", "Remove", "RemoveAll", "AddHardCert", "Lock", "Unlock", "Close", "Extension", "Forward"}
 	op := vChoose(len(ops), "operation")
@@ -84,7 +82,7 @@ func H11_traces() {
 		}
 	})
 	vAssert(!crashed, "C11.operation-completes")
-	vTraceCheckAtomic(ops[op], "shim.mu")
+	vTraceCheckAtomic(ops[op], "shim.*")
 	vTraceEmit(ops[op])
 	vReach("C11.traced")
 }
